@@ -456,6 +456,21 @@ def derivs_run(case, ctx):
         if fresh != g:
             ctx.fail("cache/mutated", "%r: cached pattern differs from a fresh compile" % s)
         graphs.append(g)
+    # white space around the whole text: every character of the class, leading and trailing, alone ("name\n" is the
+    # shape a fast path for simple names would see differently from the grammar)
+    if graphs[0] is not None:
+        for c in WS:
+            for padded in (spellings[0] + c, c + spellings[0], c + spellings[0] + c + c):
+                try:
+                    gp = compile_str(padded)
+                    via_parse = compile_expr(parse(padded))
+                except ValueError as err:
+                    ctx.fail("accept/grammar-string-rejected", "%r (derivation %r with white space around it) is rejected: %s" % (padded, e, err))
+                except Exception as err:
+                    ctx.fail("reject/exception-class", "%r raised %r" % (padded, err))
+                if gp != graphs[0] or via_parse != graphs[0]:
+                    ctx.fail("spelling/whitespace", "%r and %r compile to unequal patterns (compile_str %r, via parse %r)"
+                             % (spellings[0], padded, sorted(impl_paths(gp)), sorted(impl_paths(via_parse))))
     # equivalent spellings: whitespace-only variants must compile to equal patterns
     base = graphs[0]
     for i in (1, 2):
